@@ -196,7 +196,8 @@ def enclose(spec, val, dom, generic):
         elif kind == "dekker_err":
             Pv = val(m[2])
             pmax = np.maximum(np.abs(Pv.lo), np.abs(Pv.hi))
-            safe = ~Pv.emp & ~Pv.nan & np.isfinite(pmax) & (pmax < f.largest / 4)
+            # the partial products xh*yh ... exceed |x*y| by at most a factor 1 + 2**-(p/2 - 2): no overflow below largest * (1 - 2**-8)
+            safe = ~Pv.emp & ~Pv.nan & np.isfinite(pmax) & (pmax < f.largest * f.ft(1 - 2.0 ** -8))
             w = np.nextafter(pmax * u, f.inf) + f.tiny * 4
             lo, hi = -w, w
         else:
